@@ -9,6 +9,9 @@ R17.4  waiting discipline: every condition wait uses mem->mutex and is followed 
        removed only when the list became empty, all in the same region
 R17.5  counting: notify flips exactly the Waiting nodes it counts, signals each once, stops at `count`, returns the
        number flipped
+R17.6  the map/list primitives the protocol relies on keep the bucket chains and wait lists intact: bounded shape
+       analysis (chains of 1-3 colliding entries, every removal position, lookups, insertion) by partial evaluation
+       on concrete heap shapes
 """
 import re
 
@@ -369,9 +372,151 @@ def run(chk):
     tu = futex_tu(chk)
     nw = check_wait(chk, tu)
     nn = check_notify(chk, tu)
+    check_shapes(chk)
     chk.extra['wait_paths'] = nw
     chk.extra['notify_paths'] = nn
     chk.floor('R17.1', 12)
     chk.floor('R17.2', 20)
     chk.floor('R17.4', 10)
     chk.floor('R17.5', 20)
+
+
+# ---- R17.6: bounded shape analysis of the list / map primitives --------------------------------------------
+
+def _chain(node_dicts):
+    """link the node records into a doubly linked chain; returns head pointer (ListLink* to the first link)"""
+    for i, n in enumerate(node_dicts):
+        n['link']['prev'] = Ptr(node_dicts[i - 1], 'link') if i > 0 else 0
+        n['link']['next'] = Ptr(node_dicts[i + 1], 'link') if i + 1 < len(node_dicts) else 0
+    return Ptr(node_dicts[0], 'link') if node_dicts else 0
+
+
+def _walk_chain(head, limit=8):
+    """keys along next pointers + consistency of the prev links"""
+    keys, ok = [], True
+    prev = 0
+    cur = head
+    while cur != 0 and len(keys) < limit:
+        if not isinstance(cur, Ptr):
+            return keys, False
+        rec = cur.c if cur.k == 'link' else cur.c[cur.k]
+        link = rec['link']
+        keys.append(rec.get('key', rec.get('id')))
+        if (link['prev'] == 0) != (prev == 0) or (prev != 0 and link['prev'] != prev):
+            ok = False
+        prev = Ptr(rec, 'link')
+        cur = link['next']
+    return keys, ok and cur == 0
+
+
+def check_shapes(chk):
+    tus = [astdb.dump_ast(astdb.src('futex/map.c'), flags=FUTEX_FLAGS, config='futex'),
+           astdb.dump_ast(astdb.src('futex/list.c'), flags=FUTEX_FLAGS, config='futex')]
+    for t in tus:
+        chk.unit(t)
+    freed = []
+
+    def mk_interp():
+        def calloc(interp, args, node):
+            rec = {'link': {'prev': 0, 'next': 0}, 'key': 0, 'value': 0}
+            interp.path.state['new'] = rec
+            return Ptr({'v': rec}, 'v')
+        it = pe.Interp(tus, {'free': lambda i, a, n: (i.event('free', (pe._hashable(a[0]),), n), None)[1], 'calloc': calloc})
+        return it
+    BC = 4
+    n_inst = 0
+    for n in (1, 2, 3):
+        for pos in range(n):
+            keys = [5 + BC * i for i in range(n)]          # all collide in bucket 5 % 4 = 1
+            it = mk_interp()
+            holder = {}
+
+            def setup():
+                nodes = [{'link': {'prev': 0, 'next': 0}, 'key': k, 'value': 'V%d' % k} for k in keys]
+                buckets = [0] * BC
+                buckets[1] = _chain(nodes)
+                other = {'link': {'prev': 0, 'next': 0}, 'key': 2, 'value': 'V2'}
+                buckets[2] = Ptr(other, 'link')
+                m = {'buckets': Ptr(buckets, 0), 'bucketCount': BC}
+                holder['buckets'] = buckets
+                holder['nodes'] = nodes
+                return ('mapRemove', [Ptr({'v': m}, 'v'), keys[pos]], {})
+            paths = it.explore(setup)
+            chk.require(len(paths) == 1, 'mapRemove has %d paths on a concrete chain' % len(paths))
+            p = paths[0]
+            got, consistent = _walk_chain(holder['buckets'][1])
+            want = [k for i, k in enumerate(keys) if i != pos]
+            n_inst += 1
+            chk.expect(got == want and consistent and p.ret == 'V%d' % keys[pos], 'R17.6', 'mapRemove[chain=%d,pos=%d]' % (n, pos),
+                       'removing key %d (position %d) from the bucket chain %r leaves %r (links consistent: %s), expected %r: entries of other '
+                       'addresses that collide in the bucket are lost - their waiters become invisible to notify'
+                       % (keys[pos], pos, keys, got, consistent, want), 'mapRemove:chain')
+            og, oc = _walk_chain(holder['buckets'][2])
+            chk.expect(og == [2], 'R17.6', 'mapRemove-other-bucket[chain=%d,pos=%d]' % (n, pos), 'another bucket changed: %r' % og, 'mapRemove:other-bucket')
+            fr = [a[0] for nm, a, l in p.events if nm == 'free']
+            chk.expect(len(fr) == 1, 'R17.6', 'mapRemove-frees-once[chain=%d,pos=%d]' % (n, pos), 'mapRemove frees %d nodes' % len(fr), 'mapRemove:free')
+    # mapGet finds every key of a chain and only those; mapInsert prepends
+    for n in (0, 1, 3):
+        keys = [5 + BC * i for i in range(n)]
+        for probe in keys + [5 + BC * 7]:
+            it = mk_interp()
+            holder = {}
+
+            def setup2():
+                nodes = [{'link': {'prev': 0, 'next': 0}, 'key': k, 'value': 'V%d' % k} for k in keys]
+                buckets = [0] * BC
+                buckets[1] = _chain(nodes)
+                holder['nodes'] = nodes
+                return ('mapGet', [Ptr({'v': {'buckets': Ptr(buckets, 0), 'bucketCount': BC}}, 'v'), probe], {})
+            p = it.explore(setup2)[0]
+            if probe in keys:
+                nd = holder['nodes'][keys.index(probe)]
+                ok = isinstance(p.ret, Ptr) and p.ret.c is nd and p.ret.k == 'value'
+            else:
+                ok = p.ret == 0
+            n_inst += 1
+            chk.expect(ok, 'R17.6', 'mapGet[chain=%d,key=%d]' % (n, probe), 'mapGet(%d) on chain %r returns %r' % (probe, keys, p.ret), 'mapGet')
+        it = mk_interp()
+        holder = {}
+
+        def setup3():
+            nodes = [{'link': {'prev': 0, 'next': 0}, 'key': k, 'value': 'V%d' % k} for k in keys]
+            buckets = [0] * BC
+            buckets[1] = _chain(nodes)
+            holder['buckets'] = buckets
+            return ('mapInsert', [Ptr({'v': {'buckets': Ptr(buckets, 0), 'bucketCount': BC}}, 'v'), 5 + BC * 9], {})
+        p = it.explore(setup3)[0]
+        got, consistent = _walk_chain(holder['buckets'][1])
+        chk.expect(got == [5 + BC * 9] + keys and consistent, 'R17.6', 'mapInsert[chain=%d]' % n,
+                   'mapInsert into chain %r gives %r (consistent %s)' % (keys, got, consistent), 'mapInsert')
+    # listRemove on wait lists (chains of Wait records, link first): every position, head updated
+    for n in (1, 2, 3):
+        for pos in range(n):
+            it = mk_interp()
+            holder = {}
+
+            def setup4():
+                ws = [{'link': {'prev': 0, 'next': 0}, 'id': 'W%d' % i} for i in range(n)]
+                head = _chain(ws)
+                holder['ws'] = ws
+                return ('listRemove', [head, Ptr(ws[pos], 'link')], {})
+            p = it.explore(setup4)[0]
+            got, consistent = _walk_chain(p.ret)
+            want = ['W%d' % i for i in range(n) if i != pos]
+            lk = holder['ws'][pos]['link']
+            chk.expect(got == want and consistent and lk['prev'] == 0 and lk['next'] == 0, 'R17.6', 'listRemove[chain=%d,pos=%d]' % (n, pos),
+                       'listRemove of element %d from a list of %d returns the list %r (consistent %s), expected %r' % (pos, n, got, consistent, want),
+                       'listRemove')
+            n_inst += 1
+    it = mk_interp()
+    holder = {}
+
+    def setup5():
+        ws = [{'link': {'prev': 0, 'next': 0}, 'id': 'W%d' % i} for i in range(2)]
+        head = _chain(ws)
+        new = {'link': {'prev': 0, 'next': 0}, 'id': 'N'}
+        return ('listPrepend', [head, Ptr(new, 'link')], {})
+    p = it.explore(setup5)[0]
+    got, consistent = _walk_chain(p.ret)
+    chk.expect(got == ['N', 'W0', 'W1'] and consistent, 'R17.6', 'listPrepend', 'listPrepend gives %r (consistent %s)' % (got, consistent), 'listPrepend')
+    chk.floor('R17.6', 30)
